@@ -11,6 +11,6 @@ def run(ck):
     # validation (and the partial store) recompute the checksum from the medium: that says something about the image only
     # when the recomputation walks the WHOLE data region, whatever the placement - a walk that stops short (or never
     # starts) lets a mixed image validate
-    ck.rule('C11.x', 'the checksum recomputation walks the whole data region chunk by chunk, address and count moving together, and reports success only with nothing left (C10.b/C10.c walker instances of persistent_calculate_checksum re-evaluated)')
-    reevaluate(ck, 'C11.x', 'c10', lambda r, k: r in ('C10.b', 'C10.c') and k.startswith('persistent_calculate_checksum:'),
+    ck.rule('C11.x', 'the checksum recomputation walks the whole data region chunk by chunk, address and count moving together, and reports success only with nothing left (C10.b/C10.c walker instances of persistent_calculate_checksum re-evaluated; what the fold computes from the chunks is decided under C10)')
+    reevaluate(ck, 'C11.x', 'c10', lambda r, k: r in ('C10.b', 'C10.c') and k.startswith('persistent_calculate_checksum:') and not k.endswith((':fold', ':result')),
                'the recomputed checksum covers every octet of the data region')
